@@ -22,6 +22,7 @@ use std::panic::{catch_unwind, AssertUnwindSafe};
 use std::rc::Rc;
 use virtio_drivers::device::rng::VirtIORng;
 use virtio_drivers::device::rtc::VirtIORtc;
+#[cfg(feature = "alloc")]
 use virtio_drivers::device::virtio_9p::VirtIO9p;
 use virtio_drivers::transport::DeviceType;
 use virtio_drivers::verif::Event;
@@ -501,6 +502,7 @@ fn rtc_history(ctx: &mut Ctx, feats: u64, nops: usize) {
 // 9p
 fn tag_config(tag: &[u8]) -> Vec<u8> { let mut c = (tag.len() as u16).to_le_bytes().to_vec(); c.extend_from_slice(tag); c }
 
+#[cfg(feature = "alloc")]
 fn p9_history(ctx: &mut Ctx, feats: u64, nops: usize) {
     prepare();
     let mut ts = TState::new(DeviceType::_9P, feats, 1, 16);
@@ -637,6 +639,7 @@ fn simulate_tag(cfg0: &[u8], sched: &[(usize, Vec<u8>, bool)], fail_at: Option<u
     out
 }
 
+#[cfg(feature = "alloc")]
 fn tag_case(ctx: &mut Ctx, big: bool) {
     prepare();
     let feats = *ctx.rng.pick(&FEATURE_SETS);
@@ -717,7 +720,8 @@ pub fn run(ctx: &mut Ctx) {
         for rep in 0..2 {
             ctx.tr.scenario(&format!("c20misc-rng-{}-{}", i, rep)); rng_history(ctx, *f, ops / 2);
             ctx.tr.scenario(&format!("c20misc-rtc-{}-{}", i, rep)); rtc_history(ctx, *f, ops);
-            ctx.tr.scenario(&format!("c20misc-9p-{}-{}", i, rep)); p9_history(ctx, *f, ops);
+            #[cfg(feature = "alloc")]
+            { ctx.tr.scenario(&format!("c20misc-9p-{}-{}", i, rep)); p9_history(ctx, *f, ops); }
         }
     }
     // short histories: the foreign-id / zero-length endings
@@ -726,10 +730,13 @@ pub fn run(ctx: &mut Ctx) {
         let f = FEATURE_SETS[(h as usize) % FEATURE_SETS.len()];
         ctx.tr.scenario(&format!("c20misc-rng-short-{}", h)); { let k = 1 + ctx.rng.below(4) as usize; rng_history(ctx, f, k); }
         ctx.tr.scenario(&format!("c20misc-rtc-short-{}", h)); { let k = 1 + ctx.rng.below(4) as usize; rtc_history(ctx, f, k); }
-        ctx.tr.scenario(&format!("c20misc-9p-short-{}", h)); { let k = 1 + ctx.rng.below(4) as usize; p9_history(ctx, f, k); }
+        #[cfg(feature = "alloc")]
+        { ctx.tr.scenario(&format!("c20misc-9p-short-{}", h)); { let k = 1 + ctx.rng.below(4) as usize; p9_history(ctx, f, k); } }
     }
     let tags = ctx.budget(2000, 6);
+    #[cfg(feature = "alloc")]
     for i in 0..tags { ctx.tr.scenario(&format!("c20misc-tag-{}", i)); tag_case(ctx, false); }
     let bigs = ctx.budget(1, 4);
+    #[cfg(feature = "alloc")]
     for i in 0..bigs { ctx.tr.scenario(&format!("c20misc-tag-big-{}", i)); tag_case(ctx, true); }
 }
